@@ -12,6 +12,8 @@ import (
 	"strings"
 	"sync"
 	"time"
+
+	"qedverif/lib"
 )
 
 // parallel runs f(i) for i in [0,n) on up to w workers.
@@ -32,6 +34,18 @@ func parallel(n, w int, f func(i int)) {
 	}
 	close(ch)
 	wg.Wait()
+}
+
+// onlyMatch: replay filter. c.Only == "" runs everything; otherwise only the case whose id equals c.Only
+// (a trailing '*' in c.Only selects a whole family, e.g. "route-*").
+func onlyMatch(c *lib.Ctx, id string) bool {
+	if c.Only == "" || c.Only == id {
+		return true
+	}
+	if strings.HasSuffix(c.Only, "*") {
+		return strings.HasPrefix(id, strings.TrimSuffix(c.Only, "*"))
+	}
+	return false
 }
 
 // ---------- child processes ----------
